@@ -280,6 +280,12 @@ def grammar_variants(run, name, h, bname, ref, pw, ctx, st, rng):
         if noisy != salt[21]:
             bad = ref[:28] + noisy + ref[29:]
             check_string(run, name, h, bad, pw, ctx, "padding-bits-set", None, canonical=ref)
+        # ... and so are the two unused bits of the last digest character (23 bytes in 31 characters)
+        j = F.BCRYPT64.index(ref[-1])
+        if j & 3 == 0:
+            bad = ref[:-1] + F.BCRYPT64[j | rng.randrange(1, 4)]
+            check_string(run, name, h, bad, pw, ctx, "digest-padding-bits-set", None, canonical=ref)
+            run.count("origin:digest-padding-bits-set")
 
 
 def libpass_inspect(run):
@@ -382,7 +388,7 @@ def body(run):
     for n in names:
         if H.usable(n) and n not in H.DISABLED:
             run.require(f"rt:{n}", 2)
-    for o in ("produced", "implicit-rounds", "config-only", "hex-uppercase", "hex-lowercase", "padding-bits-set", "bare-salt"):
+    for o in ("produced", "implicit-rounds", "config-only", "hex-uppercase", "hex-lowercase", "padding-bits-set", "digest-padding-bits-set", "bare-salt"):
         run.require(f"origin:{o}", 3)
     run.require("libpass_inspect", 50)
     if run.tier == "thorough":
